@@ -821,41 +821,6 @@ _BTree_set(BTree *self, PyObject *keyarg, PyObject *value,
     * don't try to rebalance the tree.
     */
 
-    if (min && childlength)
-    {  /* We removed a key. but the node child is non-empty.  If the
-        deleted key is the node key, then update the node key using
-        the smallest key of the node child.
-
-        This doesn't apply to the 0th node, whos key is unused.
-        */
-        int _cmp = 1;
-        TEST_KEY_SET_OR(_cmp, key, d->key) goto Error;
-        if (_cmp == 0) /* Need to replace key with first key from child */
-        {
-            Bucket *bucket;
-
-            VERIF_PROBE(17);
-            if (SameType_Check(self, d->child))
-            {
-                UNLESS(PER_USE(d->child))
-                    goto Error;
-                bucket = BTREE(d->child)->firstbucket;
-                PER_UNUSE(d->child);
-            }
-            else
-                bucket = BUCKET(d->child);
-
-            UNLESS(PER_USE(bucket))
-                goto Error;
-            DECREF_KEY(d->key);
-            COPY_KEY(d->key, bucket->keys[0]);
-            INCREF_KEY(d->key);
-            PER_UNUSE(bucket);
-            if (PER_CHANGED(self) < 0)
-                    goto Error;
-        }
-    }
-
     if (status == 2)
     {
         /* The child must be a BTree because bucket.set never returns 2 */
@@ -892,6 +857,45 @@ _BTree_set(BTree *self, PyObject *keyarg, PyObject *value,
             * it was our firstbucket, it may also be theirs.
             */
             assert(status == 2);
+        }
+    }
+
+    /* (The separator is refreshed only now, after the leaf chain has been
+    * repaired:  the key comparison may raise, and a stale separator is
+    * harmless whereas an emptied leaf left in the chain is not.)
+    */
+    if (min && childlength)
+    {  /* We removed a key. but the node child is non-empty.  If the
+        deleted key is the node key, then update the node key using
+        the smallest key of the node child.
+
+        This doesn't apply to the 0th node, whos key is unused.
+        */
+        int _cmp = 1;
+        TEST_KEY_SET_OR(_cmp, key, d->key) goto Error;
+        if (_cmp == 0) /* Need to replace key with first key from child */
+        {
+            Bucket *bucket;
+
+            VERIF_PROBE(17);
+            if (SameType_Check(self, d->child))
+            {
+                UNLESS(PER_USE(d->child))
+                    goto Error;
+                bucket = BTREE(d->child)->firstbucket;
+                PER_UNUSE(d->child);
+            }
+            else
+                bucket = BUCKET(d->child);
+
+            UNLESS(PER_USE(bucket))
+                goto Error;
+            DECREF_KEY(d->key);
+            COPY_KEY(d->key, bucket->keys[0]);
+            INCREF_KEY(d->key);
+            PER_UNUSE(bucket);
+            if (PER_CHANGED(self) < 0)
+                    goto Error;
         }
     }
 
